@@ -89,15 +89,27 @@ def postprocess(src, dst):
             if (v.get("closed") or dead) and not closed:
                 # the server ended the session: that happened when it read the first line it did not
                 # answer; what the harness sent afterwards went nowhere
-                # (the first record of the trailing run of unanswered records: a pending acquire-lock request is
-                #  legitimately unanswered, so the run may start with some; the disconnect may then be placed
-                #  anywhere from there on - the records behind it are dead either way)
-                idx = len(log) - 1
-                while idx > 0 and log[idx].get("rep", {}).get("t") == "none" and log[idx - 1].get("rep", {}).get("t") == "none" and log[idx - 1].get("op") != "open":
-                    idx -= 1
-                if log and log[idx].get("rep", {}).get("t") != "none":
+                # Where did the server end the session?  (1) right after a refused authorization (answered, then
+                # closed); (2) at the first record of the trailing run of unanswered records - a pending
+                # acquire-lock request is legitimately unanswered, so for a session that may use the server
+                # (no authorization required, or authorized) the run's first record that is not an acquire.
+                def none(r_):
+                    return r_.get("rep", {}).get("t") == "none"
+                start = len(log)
+                while start > 0 and none(log[start - 1]) and log[start - 1].get("op") != "open":
+                    start -= 1
+                last_answered = log[start - 1] if start > 0 else None
+                may_use = (not sc.get("auth_required")) or any(r_.get("op") == "auth" and r_.get("rep", {}).get("t") == "ok" for r_ in log)
+                if last_answered is not None and last_answered.get("op") == "auth" and last_answered.get("rep", {}).get("t") == "err":
+                    idx = start - 1
+                elif start >= len(log):
                     idx = len(log) - 1
-                log.insert(idx + 1, {"op": "closed", "c": cid, "inv": log[idx].get("inv", 0) if log else 0, "ret": INF})
+                else:
+                    idx = start
+                    if may_use:
+                        idx = next((i for i in range(start, len(log)) if log[i].get("op") != "acquire"), start)
+                # srv: the SERVER ended this session - the specification must have a reason for that
+                log.insert(idx + 1, {"op": "closed", "c": cid, "srv": True, "inv": log[idx].get("inv", 0) if log else 0, "ret": INF})
             sess[name] = log
         # real-time order: a record needs every record of another session that returned before it was sent
         for name, log in sess.items():
@@ -363,7 +375,17 @@ def gen_c17(rnd, tier):
             return {"op": "proto", "c": name, "version": rnd.choice([0, 1, 9])}
         return rand_request(rnd, name, st["tids"], st["subs"], st["lss"], st["pubs"], v1=True, odd=True)
     n = 24 if tier == "quick" else 400
-    return with_extmon(rnd, [rounds_scenario(rnd, rnd.randint(2, 4), rnd.randint(3, 7), 2, mk) for _ in range(n)])
+    scs = [rounds_scenario(rnd, rnd.randint(2, 4), rnd.randint(3, 7), 2, mk) for _ in range(n)]
+    for sc in scs:
+        # when everybody is done the witness takes stock: how many sessions does the server count, are the
+        # keys the offenders locked free again (for an offender that is gone), is its own data still there
+        w = sc["sessions"]["c1"]
+        t = 900
+        for k in rnd.sample(KEYS, 3):
+            w += [{"op": "lock", "c": "c1", "key": k, "tid": t, "wait": True}, {"op": "release", "c": "c1", "key": k, "tid": t + 1, "wait": True}]
+            t += 2
+        w += [{"op": "pget", "c": "c1", "pat": ["$SYS", "clients"], "tid": t, "wait": True}, {"op": "get", "c": "c1", "key": ["w", "k"], "tid": t + 1, "wait": True}]
+    return with_extmon(rnd, scs)
 
 
 GRANTS = [[], [["#"]], [["a", "#"]], [["a", "?"]], [["a", "b"]], [["?", "b"]], [["b"], ["a", "#"]], [["c", "d", "?"]]]
